@@ -1,13 +1,32 @@
 #!/venv/bin/python
 """prints the sub-agent prompt for one property (only the property text and a scratch worktree are given)"""
 import json, sys
+import glob, os
 pid, wt = sys.argv[1], sys.argv[2]
+V = os.path.dirname(os.path.dirname(os.path.realpath(__file__)))
+avoid = []
+for d in sorted(glob.glob(os.path.join(V, 'seeded', '*', 'meta.json'))):
+  m = json.load(open(d))
+  if m['property'] == pid or pid in (m.get('caught_by') or []):
+    avoid.append('  - %s: %s' % (os.path.basename(os.path.dirname(d)).split('-', 1)[1].replace('-', ' '), m.get('needs_to_manifest', '')))
+try:
+  for m in json.load(open(os.path.join(V, 'mutants', 'index.json')))['mutants']:
+    if pid in m['properties']:
+      avoid.append('  - %s' % m.get('what', m['file']))
+except Exception:
+  pass
+AVOID = ''
+if '--avoid' in sys.argv and avoid:
+  AVOID = """
+
+Other people have ALREADY tried the following ideas for this property; do NOT repeat them or close variants of them - find a DIFFERENT mechanism, preferably in a different function or code path that the property depends on (look at every method the property's behaviour flows through, including helper classes, wrappers/decorators, the less used entry points and parameter combinations):
+""" + '\n'.join(avoid)
 p = [json.loads(l) for l in open('/verif/properties.jsonl') if json.loads(l)['id'] == pid][0]
-print(f"""You are helping to test a verification effort for the Python library aleph2c/miros (a UML statechart library: hierarchical state machine event processor in miros/hsm.py, threaded active objects + publish/subscribe fabric + timed events in miros/activeobject.py, signals/events in miros/event.py, miros/singleton.py, miros/thread_safe_attributes.py).
+TEXT = (f"""You are helping to test a verification effort for the Python library aleph2c/miros (a UML statechart library: hierarchical state machine event processor in miros/hsm.py, threaded active objects + publish/subscribe fabric + timed events in miros/activeobject.py, signals/events in miros/event.py, miros/singleton.py, miros/thread_safe_attributes.py).
 
 You have your OWN scratch git worktree of the repository at {wt} . Work ONLY inside {wt} (never touch /repo or /verif, do not read /verif). Python is /venv/bin/python. Run things from inside the worktree so that `import miros` picks up the worktree copy, e.g.:
   cd {wt} && PYTHONPATH={wt} /venv/bin/python -m pytest -q -p no:cacheprovider --timeout=900 --deselect test/crypto_test.py::test_cryptography
-(the full suite takes about one minute; test/crypto_test.py::test_cryptography always fails, also on the unchanged tree - ignore it; test/comprehensive_hsm_test.py test_group_4 and test_group_14 are known to be flaky).
+(the full suite takes about one minute; test/crypto_test.py::test_cryptography always fails, also on the unchanged tree - ignore it; test/comprehensive_hsm_test.py test_group_4 and test_group_14 are known to be flaky; the whole file test/comprehensive_hsm_test.py is timing sensitive and shows random failures when the machine is loaded - other people run suites at the same time, so re-run that file alone before blaming your change).
 
 Here is a semantic property that the library is supposed to satisfy:
 
@@ -20,7 +39,7 @@ YOUR TASK: make a small, realistic change to the library source under {wt}/miros
   1. the property above is BROKEN by the change,
   2. the library still imports and the existing test suite still passes with the change (run it; apart from the always-failing crypto test and the two flaky groups),
   3. the break needs something SPECIFIC to manifest - a particular interleaving of threads, a fault or cancellation at a particular point, a multi-step sequence of operations, an unusual input or chart shape, or two cooperating sites - NOT something that ordinary use of the library would expose at once. Avoid changes that break everything.
-Do not edit the tests. Do not add hooks or test-only code to the library. One change (it may touch two sites if they cooperate).
+{{AVOID_PLACEHOLDER}}Do not edit the tests. Do not add hooks or test-only code to the library. One change (it may touch two sites if they cooperate).
 
 Then write a DEMONSTRATION: a small standalone program {wt}/demo.py (plain python, no pytest needed; it may use threads, sleeps, many iterations, sys.setswitchinterval, or monkeypatch a stdlib function to inject a delay at the critical point) that exits 0 and prints PASS on the UNCHANGED library and exits 1 and prints FAIL on the changed library, reliably (say at least 9 out of 10 runs). Verify both: inside the worktree use `git diff -- miros > patch.diff; git checkout -- miros; <run demo>; git apply patch.diff; <run demo>` to run the demo without and with your change. NEVER use `git stash` (the stash is shared between all worktrees of the repository and other people are working in sibling worktrees).
 
@@ -29,3 +48,4 @@ When you are done leave in {wt}:
   - demo.py     : the demonstration
   - NOTES.md    : which property it breaks and how, what exactly is needed for the break to manifest (the interleaving / sequence / input), and the exact commands you ran with their results (test suite with the change; demo without and with the change).
 Reply with a short summary: the idea of the change, what it needs to manifest, and the results of the three runs. If after honest effort you cannot find such a change, say so and explain what you tried.""")
+print(TEXT.replace('{AVOID_PLACEHOLDER}', (AVOID + '\n\n') if AVOID else ''))
